@@ -618,3 +618,50 @@ def run_default_case(fi, gi, hand, route):
     finally:
         fs.os, fs.io = saved
     return sorted(o["id"] for o in got) == want and sorted(o["id"] for o in mem) == want
+
+
+# ---- a FilterSet is a set of filters under any history of add / remove: what it holds is what a query applies
+FS_FILTERS = [lambda: Filter("name", "=", "n0"), lambda: Filter("type", "=", "identity"), lambda: Filter("name", "!=", "n1"), lambda: Filter("labels", "in", ["a", "b"])]
+
+
+def filterset_history(o1: int, f1: int, o2: int, f2: int, o3: int, f3: int, o4: int, f4: int) -> bool:
+    """
+    pre: 0 <= o1 <= 1 and 0 <= o2 <= 1 and 0 <= o3 <= 1 and 0 <= o4 <= 1 and 0 <= f1 < 4 and 0 <= f2 < 4 and 0 <= f3 < 4 and 0 <= f4 < 4
+    post: _
+    """
+    steps = [(pick(o1, 2), pick(f1, 4)), (pick(o2, 2), pick(f2, 4)), (pick(o3, 2), pick(f3, 4)), (pick(o4, 2), pick(f4, 4))]
+    with Native():
+        ok = run_filterset_history(steps)
+    V.reached()
+    return ok
+
+
+def run_filterset_history(steps):
+    """op 0 = add (a NEW equal instance every time), 1 = remove; after every step the set holds exactly the model's filters, a MemorySource with the
+    set attached answers as the naive evaluation of those filters, and so does a query that passes the set as its argument"""
+    fset = FilterSet()
+    src = MemorySource([stix2.parse(o) for o in POP])
+    objs = [stix2.parse(o) for o in POP]
+    model = []
+    for op, fi in steps:
+        f = FS_FILTERS[fi]()
+        if op == 0:
+            fset.add(f)
+            src.filters.add(FS_FILTERS[fi]())
+            if f not in model:
+                model.append(f)
+        else:
+            if f in model:
+                model.remove(f)
+                fset.remove(f)
+                src.filters.remove(FS_FILTERS[fi]())
+            else:
+                continue                      # removing what is not there is not part of the claim
+        if sorted(map(repr, fset)) != sorted(map(repr, model)) or len(fset) != len(model):
+            return False
+        want = sorted((o["id"], str(o["modified"])) for o in apply_common_filters(objs, model))
+        if sorted((o["id"], str(o["modified"])) for o in src.query()) != want:
+            return False
+        if sorted((o["id"], str(o["modified"])) for o in MemorySource(objs).query(fset)) != want:
+            return False
+    return True
